@@ -95,7 +95,11 @@ class HarnessGone(Exception):
     """the cached harness binary disappeared (cache pruned by a concurrent build): rebuild and retry"""
 
 
-def run_pair(exe, drv, text, timeout=120):
+TIMEOUT = [40]
+
+
+def run_pair(exe, drv, text, timeout=None):
+    timeout = timeout or TIMEOUT[0]
     try:
         rc, out, err = vlib.run([exe], inp=text, timeout=timeout)
     except FileNotFoundError:
@@ -272,11 +276,14 @@ class Oracle:
             return
 
     def _run(self, i, j, out):
-        m = re.match(r"run (\d+) n=(\d+) ents=(\S+) ", out)
+        m = re.match(r"run (\d+) n=(\d+) sel=(\d+) ents=(\S+) ", out)
         if not m:
             self.sanity.append((i, "unparsable run line %r" % out))
             return
-        P = [] if m.group(3) == "-" else [int(x) if x != "?" else -1 for x in m.group(3).split(",")]
+        P = [] if m.group(4) == "-" else [int(x) if x != "?" else -1 for x in m.group(4).split(",")]
+        if int(m.group(3)) != len(P):
+            self.c11.append((i, "job %d: the filter selected %s rows but %d entities exist in the selected blocks "
+                                "(blocks not clipped to the population?)" % (j, m.group(3), len(P))))
         J = self.jobs[j]
         st = self.stats
         st["runs"] += 1
@@ -490,9 +497,20 @@ def shrink(exe, drv, text, which):
             return r.tie is not None
         return bool(getattr(r.oracle, which))
     lines = clean_lines(text)
-    if not fails(lines):
-        return lines
-    return ddmin(lines, fails)
+    budget = 400
+    saved = TIMEOUT[0]
+    if which == "crash":
+        # a hang costs its timeout on every probe: few probes, short timeout
+        r0 = evaluate(exe, drv, "\n".join(lines) + "\n")
+        if r0.crash and "timeout" in r0.crash:
+            budget = 16
+            TIMEOUT[0] = 10
+    try:
+        if not fails(lines):
+            return lines
+        return ddmin(lines, fails, max_tests=budget)
+    finally:
+        TIMEOUT[0] = saved
 
 
 # ------------------------------------------------------------------------------------------------
@@ -796,14 +814,21 @@ def run_check(ctx, prop, corpus_dir, batches, oracle_attr):
             if r.tie is not None or r.oracle.sanity:
                 tie_breaks.append(r)
 
+    def enough():
+        return reported["oracle"] >= 3 or reported["crash"] >= 2
+
     if corpus:
         handle("corpus", evaluate_many(exe, drv, corpus))
     for name, texts in batches:
-        # in slices, so that a violation found early stops the volume
-        for s in range(0, len(texts), 256):
-            handle(name, evaluate_many(exe, drv, texts[s:s + 256]))
-            if reported["oracle"] >= 3:
-                break
+        # in slices (a small one first), so that a violation / hang found early stops the volume
+        pos = 0
+        step = 32
+        while pos < len(texts) and not enough():
+            handle(name, evaluate_many(exe, drv, texts[pos:pos + step]))
+            pos += step
+            step = 256
+        if enough():
+            break
 
     # search stage: the tie broke somewhere but the property held on those inputs
     searched = 0
